@@ -128,7 +128,7 @@ def run(ctx):
                 # (how the rule set reaches the enforcer - a Rules object with the enforcer's default, with
                 #  another one, with none, loaded from text, a dict, the constructor - never matters)
                 c = ec.enforce_case(rules, {'by': 'name', 'name': qn}, {}, creds, dflt=dflt, checklog=1, rng=rng, want='c06', registered=registered,
-                                    via=rng.choice(['rules_obj', 'rules_obj', 'own_default', 'no_default', 'loaded', 'dict', 'ctor']))
+                                    via=rng.choice(['rules_obj', 'rules_obj', 'own_default', 'no_default', 'loaded', 'dict', 'ctor', 'main_file', 'dir_only']))
                 cases.append(c)
         # a body enforced as a check object: probes are told None
         nb, body = rng.choice(rules)
